@@ -2,6 +2,7 @@
    inside P Q : Q's left bound is below and its right bound above P's, at every step. *)
 From Coq Require Import Reals Lra Lia List Permutation.
 From PUN Require Import Base.Num Model.Pbox Proofs.ListR Proofs.PboxWF Proofs.Lattice.
+From PUN Require Import Gen.GenCtor Proofs.CtorTie.
 Import ListNotations.
 Open Scope R_scope.
 
@@ -53,9 +54,21 @@ Proof. exact (contains_mono steps p q). Qed.
 Example C11_ex : env_raw ([1; 2], [3; 4]) ([0; 5], [1; 6]) = ([Rmin 1 0; Rmin 2 5], [Rmax 3 1; Rmax 4 6]).
 Proof. reflexivity. Qed.
 
+(* TIE: negation, reciprocal, number operations, monotone maps, envelope and imposition of the model are the definitions recognised in
+   the source on every run (Gen/GenCtor.v) *)
+Theorem C11_stepwise_ops_are_translated (N : Num) (steps : nat) (p_lo p_hi : N) (p q : pbox N) (f : N -> N -> N) (g : N -> N) (c : N) :
+  gen_pneg N steps p_lo p_hi p = pneg N steps p_lo p_hi p /\
+  gen_precip N steps p_lo p_hi p = precip N steps p_lo p_hi p /\
+  gen_pnum N steps p_lo p_hi f p c = pnum N steps p_lo p_hi f p c /\
+  gen_punary N steps p_lo p_hi g p = punary N steps p_lo p_hi g p /\
+  gen_penv N steps p_lo p_hi p q = penv N steps p_lo p_hi p q /\
+  gen_pimp N steps p_lo p_hi p q = pimp N steps p_lo p_hi p q.
+Proof. exact (gen_stepwise_ops_are_model N steps p_lo p_hi p q f g c). Qed.
+
 Print Assumptions C11_env_is_pointwise.
 Print Assumptions C11_imp_is_pointwise.
 Print Assumptions C11_imp_empty_raises.
 Print Assumptions C11_env_least.
 Print Assumptions C11_imp_greatest.
 Print Assumptions C11_env_order_independent.
+Print Assumptions C11_stepwise_ops_are_translated.
